@@ -944,12 +944,68 @@ func ruleMemoErr(c *Ctx) []Obligation {
 		// and the table is written whenever errors exist and the memo is set: a store/MapUpdate keyed by the receiver
 		// under len(errs) != 0 in the function or its deferred closure
 		remembered := false
+		skipped := ""
 		for _, f2 := range append([]*ssa.Function{fn}, fn.AnonFuncs...) {
+			var mus []*ssa.MapUpdate
 			eachInstr(f2, func(in ssa.Instruction) {
 				if mu, ok := in.(*ssa.MapUpdate); ok && isErrorSlice(mu.Value.Type()) {
 					remembered = true
+					mus = append(mus, mu)
 				}
 			})
+			if len(mus) == 0 || f2 == fn {
+				continue
+			}
+			// in the closure that remembers: every way round the store goes over an edge that says `memo not set` or
+			// `no errors`; otherwise a memoised type with errors is left without its errors
+			barrier := map[*ssa.BasicBlock]bool{}
+			for _, mu := range mus {
+				barrier[mu.Block()] = true
+			}
+			excuses := func(b *ssa.BasicBlock, si int) bool {
+				ifi, isIf := b.Instrs[len(b.Instrs)-1].(*ssa.If)
+				if !isIf {
+					return false
+				}
+				taken := si == 0
+				if x, isEq, okn := nilTest(ifi.Cond); okn {
+					if _, f, _ := loadedField(x); f == fMemo {
+						return isEq == taken // memo == nil on this edge
+					}
+				}
+				if bo, isB := ifi.Cond.(*ssa.BinOp); isB && isLenOf(bo.X) && isErrorSlice(bo.X.(*ssa.Call).Call.Args[0].Type()) {
+					if k, okk := constInt(bo.Y); okk {
+						op := bo.Op
+						if !taken {
+							op = map[token.Token]token.Token{token.LSS: token.GEQ, token.GTR: token.LEQ, token.LEQ: token.GTR, token.GEQ: token.LSS, token.EQL: token.NEQ, token.NEQ: token.EQL}[op]
+						}
+						return k == 0 && (op == token.EQL || op == token.LEQ) || k == 1 && op == token.LSS
+					}
+				}
+				return false
+			}
+			seenB := map[*ssa.BasicBlock]bool{}
+			stack := []*ssa.BasicBlock{f2.Blocks[0]}
+			for len(stack) > 0 {
+				b := stack[len(stack)-1]
+				stack = stack[:len(stack)-1]
+				if seenB[b] || barrier[b] {
+					continue
+				}
+				seenB[b] = true
+				if _, isR := b.Instrs[len(b.Instrs)-1].(*ssa.Return); isR {
+					skipped = c.InstrPos(b.Instrs[len(b.Instrs)-1])
+				}
+				for si, sx := range b.Succs {
+					if !excuses(b, si) {
+						stack = append(stack, sx)
+					}
+				}
+			}
+		}
+		if remembered && skipped != "" {
+			obs = append(obs, bad(R, con, skipped, "the errors are remembered only on some paths: the remembering store can be passed by on a path where the memo is set and the error list is not empty, so a second resolve of that type reports nothing"))
+			continue
 		}
 		switch {
 		case good && remembered:
